@@ -34,14 +34,16 @@ e3("C10", "Bounded symbolic execution of the real coverage code through the publ
           "bins, bin arrays with/without count, ignore/illegal cuts, auto-bins incl. 32/64-bit types, enum, iff) the sample values over the "
           "whole type range and the iff values are symbolic over 1..2 samples, and z3 shows on every path that each regular/ignore/illegal "
           "bin's hit count equals the number of gated samples in the reference value set (independent partition function). "
-          "RangelistModel.compact/intersect are additionally decided with symbolic endpoints.",
+          "For a subset the samples arrive in an arbitrary valid earlier state (symbolic counts injected). RangelistModel.compact/intersect are additionally "
+          "decided with symbolic endpoints.",
    "symbolic execution of the real Python code with z3 (all sample values), enumerated bin specifications, independent partition oracle", "DESIGN.md section 6 C10")
 
 e3("C11", "Bounded symbolic execution of the real cross-coverage code through the public API: sample values of 2..3 coverpoints and the iff "
           "values of the cross and the coverpoints are symbolic over sample sequences (1 sample for every layout pair, 2..3-sample sequences on "
           "targeted layouts so that stale hit markers / iff caches are reachable); z3 shows each cross bin's count equals the number of samples "
           "whose gating conditions hold and whose value combination lies in that bin combination; bin count, order and names follow the "
-          "coverpoints' bins. Bin layouts are enumerated.",
+          "coverpoints' bins. For a subset the samples arrive in an arbitrary valid earlier state (symbolic counts in every cross bin, e.g. all bins already "
+          "covered). Bin layouts are enumerated.",
    "symbolic execution of the real Python code with z3 (all sample/iff values, sample sequences), enumerated bin layouts", "DESIGN.md section 6 C11")
 
 e3("C12", "Bounded symbolic execution of the real registry/sampling/coverage code through the public API: sample values AND the choice of "
@@ -53,8 +55,9 @@ e3("C12", "Bounded symbolic execution of the real registry/sampling/coverage cod
 e3("C13", "Bounded symbolic execution of the real report path (CoverageSaveVisitor -> PyUCIS in-memory DB -> report builder) with the hit count of "
           "every regular/ignore/illegal/cross bin of the type and of each instance injected as a symbolic integer into a state satisfying the "
           "representation invariant: z3 shows every reported count is the in-memory count, names and structure agree, percentages agree with "
-          "get_coverage()/get_inst_coverage() on every path and reporting leaves the state untouched. Text report: names/counts on concrete "
-          "histories. The UCIS XML write/read round trip is not claimed (lxml/text formatting make counts concrete).",
+          "get_coverage()/get_inst_coverage() on every path and reporting leaves the state (counts and names) untouched, also for a second report after "
+          "set_name(); user-given bin names and the injected counts are compared with the specification position by position. Text report and the UCIS XML "
+          "write/read round trip: names/counts on concrete histories only (lxml/text formatting make counts concrete; supplementary, not decided).",
    "symbolic execution of the real Python code with z3 (all hit counts symbolic), enumerated populations; XML part not applicable", "DESIGN.md section 6 C13 / section 7")
 
 e1("C03", "Translation validation over call histories: objects with fields that are random / non-random by declaration, by rand_mode toggles, "
@@ -94,7 +97,10 @@ e1("C14", "For every enumerated program and call, the value domain the call real
           "from) is read from the real run and z3 decides over ALL random-field values that no solution of the reference constraints has a field "
           "value outside that field's domain (Ref and x_f not in D_f is unsat), and that the asserted hard formula excludes no reference solution. "
           "Programs cover every relational operator against non-random fields/expressions that wrap, go negative or mix signedness, field-vs-field "
-          "chains, overlapping/unordered in-ranges, disabled blocks, enums, and previous values left in the random fields.",
+          "chains, overlapping/unordered in-ranges, statements after nested conditionals, disabled blocks, enums (also declared in non-ascending order), and "
+          "previous values left in the random fields. In addition the real swizzle-constraint builders are decided with a symbolic target over single- and "
+          "multi-range domains (the drawn target is forced; counterexamples replayed with the real Boolector) and RandState.randint is executed symbolically "
+          "(one integer draw over exactly the requested range, returned unchanged).",
    "translation validation of the inferred bound map: z3 unsatisfiability of (reference AND value outside the inferred range)", "DESIGN.md section 6 C14")
 e1("C16", "Fault enumeration: user exceptions at every statement position of a constraint body during construction (also nested, in a dynamic "
           "block, in __init__), at every position of a randomize_with body, in pre_/post_randomize (object and sub-object), and unsatisfiable calls, "
@@ -121,10 +127,14 @@ e1("C20", "Decided parts of solve_order: (i) z3 equivalence of the asserted form
           "(all constraints hold, satisfiability unchanged); (ii) every feasible value of each field lies in the domain its target is drawn from; "
           "(iii) for every target t of a domain the constraints built by the real create_rand_domain_constraint/_build_swizzle_constraints force the "
           "field to t inside the domain (t symbolic, widths 1..64); (iv) solver trace: ordered groups are tried in directive order in one solver context, "
-          "a randomising constraint is asserted only after a SAT check containing it, the final check is SAT. The frequency statement itself is not claimed.",
+          "the groups place every 'before' field of a solve_order statement (read from the program text, not from the library's dependency map) before its "
+          "'after' fields, every multi-valued solver variable of an ordered rand set belongs to a randomised group, a randomising constraint is asserted "
+          "only after a SAT check containing it, the final check is SAT. (iii) includes multi-range domains with every range picked; kernel counterexamples "
+          "are replayed with the real Boolector. The frequency statement itself is not claimed.",
    "translation validation + bound-map query + symbolic-target kernel (z3) + solver-trace ordering; frequencies not applicable", "DESIGN.md section 6 C20 / section 7")
 CHECKS["C15"] = dict(level=("other", "Decided parts of dist / weighted selection: (a) translation validation (E1): z3 equivalence of the asserted formula with "
-          "'field in the non-zero-weight entries, not in any zero-weight entry, and the other constraints' for all random-field values; (b) bounded symbolic "
+          "'field in the non-zero-weight entries, not in any zero-weight entry, and the other constraints' for all random-field values, and the (weight, index) "
+          "selection list the real DistConstraintBuilder installs in each call equals the non-zero weights evaluated on the current non-random values; (b) bounded symbolic "
           "execution (E3) of the real distselect / randselect / next_target_range with symbolic weights (<= 2^40) and symbolic RNG draws: never a zero "
           "weight, and two draws selecting the same entry are < w_i apart, so entry i owns exactly w_i of the `total` equally likely draws; (c) the dist "
           "target constraint is f == val for symbolic val. Measured frequencies are not claimed.", "DESIGN.md section 6 C15 / section 7"),
